@@ -197,7 +197,9 @@ def build_stmt(feat, marker, rnd, macros=None, eol="\n", ref_id=None, kv_ref=Non
     elif feat["ref"] == "nearmiss":
         pref = rnd.choice(["[ref:12] ", "[Ref: 12] ", "[ref: 12 ] ", " [ref: 12] ", "[ref: 99999999999] ",
                            "[ref: 4294967296] ", "[ref: -1] ", "[ref: 1x] ", "ref: 12 ", "[ref:  12] ", "[ref: ] ",
-                           "[REF: 12] ", "(ref: 12) ", "[ref: 1 2] ", "[ref: ١٢] ", "[ref : 12] "])
+                           "[REF: 12] ", "(ref: 12) ", "[ref: 1 2] ", "[ref: ١٢] ", "[ref : 12] ",
+                           # placeholders a developer leaves for the tool to fill in
+                           "[ref: ?] ", "[ref: ??] ", "[ref: N] ", "[ref: TODO] ", "[ref: _] ", "[ref: #] ", "[ref: *] ", "[ref: XXXX] "])
     parts.append(("quote", '"'))
     parts.append(("msg", pref + body))
     parts.append(("endquote", '"'))
